@@ -53,14 +53,19 @@ class Ctx:
         self.tier = tier
         self.repo = repo
         self.t0 = time.time()
+        self.notes: list[str] = []
         self.prog = Program(repo)
+        from .model import canonicalise_private_helpers
+
+        self.renamed_helpers = canonicalise_private_helpers(self.prog)
         register_program_exceptions(self.prog)
         self.res = Resolver(self.prog)
         self.findings: list[Finding] = []
         self.obligations: list[Obligation] = []
         self.samples: list[dict] = []
         self.functions_analysed: set[str] = set()
-        self.notes: list[str] = []
+        if self.renamed_helpers:
+            self.notes.append("private helpers recognised by role under a new name: " + ", ".join(f"{k} <- {v}" for k, v in sorted(self.renamed_helpers.items())))
         self.depth = 4 if tier == "quick" else 6
         self.loop_bound = 2 if tier == "quick" else 3
 
